@@ -59,6 +59,10 @@ def pipelines(draw):
             "stage": st.integers(1, max(1, n - 1)), "after": st.integers(0, 60)}))) if n >= 2 else None,
         "pipe_batch_size": draw(st.integers(1, 4)),
         "teardown_rc": draw(st.sampled_from([0, 0, 3])),
+        # an operator's try-submit-jobs / show-status on a stage's directory near the end of one of its batches, held back
+        # between two lock holds (common.late_ops)
+        "late": draw(C.late_ops()),
+        "late_stage": draw(st.integers(1, n)),
     }
 
 
@@ -145,6 +149,8 @@ def run_case(case):
                 sim.user_cmd(["resubmit-jobs", stage_out(pout, k_early), "--successful"], name="resubmit_early")
 
             w.user_events.append(("resubmit-early-stage", epred, efire, True))
+        if case.get("late"):
+            C.install_late_ops(sim, case["late"], out=stage_out(pout, case.get("late_stage", 1)))
         sim.user_cmd(["pipeline", "submit", pfile, "-o", pout], name="login")
         res = {"violations": [], "classes": [f"stages:{n}", "style:" + case["style"]] + res_classes, "nontrivial": False, "sample": None,
                "inconclusive": None, "counters": {}}
@@ -270,6 +276,9 @@ def run_case(case):
                 if got != want:
                     v.append(C.viol("C15:stage-return-code", f"stage {k}: recorded return code {got}, expected {want} "
                                     f"(missing_jobs={rj['missing_jobs'] if rj else None})"))
+                if rj is not None and rj["missing_jobs"] and case["lose"] is None and not any(x["k"] == "sbatch_fail" for x in w.log):
+                    v.append(C.viol("C15:stage-completed-with-missing-jobs", f"stage {k} of a fault-free pipeline was completed with "
+                                    f"missing jobs {rj['missing_jobs']} (recorded return code {got})"))
                 names = sorted(j["name"] for j in per_stage[k - 1]["jobs"])
                 if rj is not None and sorted([r["name"] for r in rj["results"]] + rj["missing_jobs"]) != names:
                     v.append(C.viol("C15:stage-results", f"stage {k}: results do not cover its jobs"))
